@@ -35,6 +35,16 @@ QUANT_JOB = job("quantiles",
     files={Q: 8, T: 64}, args=_quant_args, nontrivial=quant_nontrivial, heap="4g",
 )
 
+# tier B (MODEL-DRIFT): further files (other seeds) validated against the contract and then again with the design-level shadow
+# state: the operators of spec/KllMech.tla / ClassicQMech.tla / ReqMech.tla (the same modules the design models are built from) with the
+# code's constants (KLL m = 8, REQ 3 initial sections and the real section-size tables, classic k) and the logged coins must predict
+# the observed levels, level sizes, number of levels, compaction counters and section sizes
+QUANT_B_JOB = job("quantiles_b",
+    harness="quant_rec", inc=["common", "kll", "req", "quantiles"], spec="TraceQuantiles", owners=["C07"], serde=False,
+    cfg="TraceQuantiles.cfg", drift_cfg="TraceQuantilesB.cfg", files={Q: 3, T: 16},
+    args=lambda tier, seed, k, profile: _quant_args(tier, seed + 500, k + 3, profile), nontrivial=quant_nontrivial, heap="4g",
+)
+
 # every design config checks refinement (C07) AND the martingale / schedule invariants (C08(b)); the quick tier splits them
 # between the two properties to stay inside the budget, the thorough tier runs all of them for both
 KLL_MERGE = dict(module="KllDesign", cfg="MC_KllDesign_merge.cfg")
@@ -65,7 +75,9 @@ COIN_MC = [KLL_UPD, REQ_ENS, CLQ_UPD, dict(KLL_MERGE, tier=T), dict(REQ_EXEC, ti
       "KLL / REQ / classic design models refining it; traces: randomized histories of the real kll_sketch / req_sketch / quantiles_sketch "
       "(float, double with NaN, int64, std::string under a reversing comparator; sorted / reversed / random / constant / heavy-duplicate streams; "
       "merge trees with unequal k, empty / exact / estimating operands, lvalue / rvalue; iteration of empty sketches; sorted view, rank, quantile, "
-      "CDF, PMF and invalid queries; serde), every event validated by TLC against the contract; a segment (Begin..next Begin) is non-trivial when "
+      "CDF, PMF and invalid queries; serde), every event validated by TLC against the contract; tier B: further files validated again with a design-level "
+      "shadow state per sketch (the design models' own operators with the code's constants and the logged coins must predict levels, sizes, compaction "
+      "counters, section sizes; a rejection there is MODEL-DRIFT, exit 0); a segment (Begin..next Begin) is non-trivial when "
       "it merged two non-empty sketches with at least one estimating and later answered queries on an estimating sketch; distinct = distinct segment content hash",
       ["items are abstracted to their rank under the comparator (order-isomorphic renaming by bin/vlib/munge.py); the contract uses only order/equality on them",
        "rank * n is logged as an integer with the residual required below 1e-6; quantiles are asked at mid-point ranks (w + 1/2)/n and dyadic ranks a/2^m, "
@@ -76,6 +88,7 @@ COIN_MC = [KLL_UPD, REQ_ENS, CLQ_UPD, dict(KLL_MERGE, tier=T), dict(REQ_EXEC, ti
 def run_c07(oc, repo, seed, tier):
     mc_all(oc, QUANT_MC, tier)
     core.trace_job(oc, QUANT_JOB, repo, seed, tier)
+    core.trace_job(oc, QUANT_B_JOB, repo, seed, tier)
 
 
 # ---------------------------------------------------------------------------------------------------------------------
